@@ -48,4 +48,48 @@ theorem C11_syntax_error_value_partial (fs : FS) (fuel : Nat) (path : List Strin
       .error [⟨"syntax", e.msg, some (path.getLast?.getD ""), some e.line⟩] := by
   simp [loadFile, h]
 
+/-! ## rendering (`Logger.error`, FcpModel/Render.lean) -/
+
+/-- **an error value can be rendered exactly when each of its citations can be resolved**: the
+cited source is registered with the logger (under its full path or its base name) and the cited
+line is not beyond the last line of that source -/
+theorem C11_render_iff (srcs : Render.Sources) (ms : List Render.RMsg) :
+    (Render.render srcs true ms).isSome ↔
+      ∀ m ∈ ms, ∀ c, m.cite = some c →
+        ∃ src, Render.findSource srcs c = some src ∧ c.line ≤ 1 + nl src :=
+  Render.render_isSome_iff srcs true ms
+
+/-- the line quoted under a citation is that line of the cited source -/
+theorem C11_quoted_line (srcs : Render.Sources) (first : Bool) (m : Render.RMsg) (c : Render.Cite)
+    (out : List Char) (hc : m.cite = some c) (h : Render.renderMsg srcs first m = some out) :
+    ∃ src l, Render.findSource srcs c = some src ∧ Render.lineAt (Render.splitNl src) c.line = some l ∧
+      out = Render.header first m ++ Render.citeLine c ++ ['\n'] ++ Render.logLocation l c.line :=
+  Render.renderMsg_eq srcs first m c out hc h
+
+/-- **lexical and syntax errors are renderable**: whatever the text of a file, if it does not
+parse, the error value of the loader can be rendered by a logger that has the file's text
+registered under its name — the composition of `C11_error_lines` with `C11_render_iff` -/
+theorem C11_syntax_error_renders (fs : FS) (fuel : Nat) (path : List String) (src : String) (e : SynErr)
+    (h : parseText src = .error e) (srcs : Render.Sources)
+    (hreg : srcs.lookup (path.getLast?.getD "") = some src.toList) :
+    ∃ errs, loadFile fs (fuel + 1) path src = .error errs ∧
+      (Render.render srcs true (errs.map Render.ofEMsg)).isSome := by
+  refine ⟨[⟨"syntax", e.msg, some (path.getLast?.getD ""), some e.line⟩], by simp [loadFile, h], ?_⟩
+  rw [Render.render_isSome_iff]
+  intro m hm c hc
+  simp only [List.map_cons, List.map_nil, List.mem_singleton] at hm
+  subst hm
+  simp only [Render.ofEMsg, Option.some.injEq] at hc
+  subst hc
+  refine ⟨src.toList, by simp [Render.findSource, hreg], (parseText_lines src e h).2⟩
+
+/-- non-vacuity: a two-line source, an error citing its second line, and the rendered text -/
+example : Render.render [("a.fcp", "x\ny".toList)] true [⟨"boom".toList, some ⟨"a.fcp", "a.fcp", 2⟩⟩] =
+    some "  → Error: boom\n   ↳ [a.fcp:2]\n  |\n2 | y\n  | ~\n".toList := by decide
+
+/-- ... and a citation beyond the end (or of an unregistered file) cannot be rendered: the `IndexError` / `KeyError`
+of `Logger.log_node` -/
+example : Render.render [("a.fcp", "x\ny".toList)] true [⟨"boom".toList, some ⟨"a.fcp", "a.fcp", 3⟩⟩] = none ∧
+    Render.render [("a.fcp", "x\ny".toList)] true [⟨"boom".toList, some ⟨"b.fcp", "b.fcp", 1⟩⟩] = none := by decide
+
 end Fcp
